@@ -4,6 +4,8 @@ import (
 	"bytes"
 	"encoding/json"
 	"fmt"
+	"os"
+	"path/filepath"
 	"testing"
 
 	kanzi "github.com/flanglet/kanzi-go/v2"
@@ -23,6 +25,42 @@ type C11Case struct {
 	Sweep    bool       `json:"sweep,omitempty"` // all 1 <= from <= to <= nblocks+3, plus from-only / to-only
 	ReadJobs uint       `json:"read_jobs"`
 	ReadBufs []int      `json:"read_bufs,omitempty"`
+	CLI      bool       `json:"cli,omitempty"` // the range is given to the command-line tool (--from / --to) instead of the library context
+}
+
+// c11CLI decodes the stream with the command-line tool built from the working tree.
+func c11CLI(c C11Case, p *c11Pre, from, to int, work string) (msg string) {
+	bs := int(c.Cfg.BlockSize)
+	os.MkdirAll(work, 0o755)
+	in := filepath.Join(work, "s.knz")
+	out := filepath.Join(work, "s.out")
+	os.Remove(out)
+	if err := os.WriteFile(in, p.stream, 0o644); err != nil {
+		return ""
+	}
+	args := []string{"-d", "-v", "0", "-f", "-j", fmt.Sprint(max(c.ReadJobs, 1)), "-i", in, "-o", out}
+	lo, hi := 0, len(p.data)
+	if from > 0 {
+		args = append(args, fmt.Sprintf("--from=%d", from))
+		lo = min(len(p.data), (from-1)*bs)
+	}
+	if to > 0 {
+		args = append(args, fmt.Sprintf("--to=%d", to))
+		hi = min(len(p.data), (to-1)*bs)
+	}
+	if hi < lo {
+		hi = lo
+	}
+	res := runCLI(work, nil, args...)
+	desc := fmt.Sprintf("command-line tool, range [from=%d, to=%d) of %d blocks of %d bytes, jobs %d", from, to, p.nblocks, bs, c.ReadJobs)
+	if res.rc != 0 {
+		return fmt.Sprintf("%s: exit %d: %s %s", desc, res.rc, firstLines(res.out, 4), firstLines(res.err, 6))
+	}
+	got, _ := os.ReadFile(out)
+	if !bytes.Equal(got, p.data[lo:hi]) {
+		return fmt.Sprintf("%s: wrote %d bytes, expected the %d bytes of blocks %d..%d; first difference at %d", desc, len(got), hi-lo, max(from, 1), to-1, firstDiff(got, p.data[lo:hi]))
+	}
+	return ""
 }
 
 type c11Pre struct {
@@ -191,7 +229,13 @@ func TestC11(t *testing.T) {
 			msg, c = c11Sweep(r, c)
 		} else if pre := c11Prepare(c); pre != nil {
 			var nt bool
-			msg, nt = c11Range(c, pre, c.From, c.To, false)
+			if c.CLI {
+				if cliPath() != "" {
+					msg, nt = c11CLI(c, pre, c.From, c.To, filepath.Join(r.Out, fmt.Sprintf("cli-work-%d", r.Shard))), true
+				}
+			} else {
+				msg, nt = c11Range(c, pre, c.From, c.To, false)
+			}
 			r.Eval(vrt.HashOf(c), nt, "replayed")
 		}
 		if msg != "" {
@@ -233,4 +277,41 @@ func TestC11(t *testing.T) {
 			}
 		}
 	})
+	// the same ranges through the command-line tool (--from / --to), which forwards them to the Reader
+	if cliPath() != "" && !r.Failed() {
+		work := filepath.Join(r.Out, fmt.Sprintf("cli-work-%d", r.Shard))
+		defer os.RemoveAll(work)
+		r.Rapid(t, "cli-ranges", 16, 600, func(t *rapid.T) {
+			c := drawC11(t)
+			c.CLI, c.Sweep, c.Cfg.Headerless = true, false, false
+			c.Data.Len = min(c.Data.Len, 6*int(c.Cfg.BlockSize))
+			if c.Cfg.Hint > 0 {
+				c.Cfg.Hint = int64(c.Data.Len) // the tool checks the full output against the size recorded in the header
+			}
+			p := c11Prepare(c)
+			if p == nil {
+				t.Skip("compress failed")
+			}
+			if out, err := Decompress(p.stream, c.Cfg, c.ReadJobs, nil); err != nil || !bytes.Equal(out, p.data) {
+				t.Skip("plain round trip fails")
+			}
+			r.Inflight("range", c)
+			defer r.InflightDone()
+			for f := 0; f <= p.nblocks+2; f++ {
+				for to := 0; to <= p.nblocks+2; to++ {
+					if f > 0 && to > 0 && to < f {
+						continue
+					}
+					r.Tick()
+					msg := c11CLI(c, p, f, to, work)
+					cc := c
+					cc.From, cc.To = f, to
+					r.Eval(vrt.HashOf(cc), f > 0 || to > 0, "range:cli", fmt.Sprintf("rjobs:%d", c.ReadJobs))
+					if msg != "" {
+						r.Violation(t, "range", cc, "%s", msg)
+					}
+				}
+			}
+		})
+	}
 }
